@@ -166,6 +166,14 @@ func (t *qTarget) plan(msg string, attempt int) qPlan {
 			return m.Plans[attempt-1]
 		}
 	}
+	known := false
+	for _, m := range t.sc.Msgs {
+		known = known || m.ID == msg
+	}
+	if t.sc.Bounce == "requeue" && !known {
+		// a failure report that was put into the queue: its delivery to the original sender fails for good
+		return qPlan{Start: &verifx.ErrNode{Kind: "smtp", Code: 550, Ench: [3]int{5, 1, 1}, Msg: "the sender of the failed message does not exist either"}}
+	}
 	return qPlan{}
 }
 
@@ -294,11 +302,15 @@ func (d *qDelivery) Abort(ctx context.Context) error {
 type qBounce struct {
 	h      *qHistory
 	failAt string
+	q      *Queue // set in "requeue" mode
 }
 
 type qBounceDelivery struct {
 	b *qBounce
 	r *qReport
+	// "requeue" mode: the report is also handed to the queue itself, as a bounce pipeline that routes reports
+	// for remote senders into the outbound queue does
+	fwd module.Delivery
 }
 
 func (b *qBounce) Start(ctx context.Context, meta *module.MsgMetadata, from string) (module.Delivery, error) {
@@ -309,7 +321,15 @@ func (b *qBounce) Start(ctx context.Context, meta *module.MsgMetadata, from stri
 	if b.failAt == "start" {
 		return nil, fmt.Errorf("bounce target: start refused")
 	}
-	return &qBounceDelivery{b: b, r: r}, nil
+	d := &qBounceDelivery{b: b, r: r}
+	if b.q != nil {
+		fwd, err := b.q.Start(ctx, meta, from)
+		if err != nil {
+			return nil, err
+		}
+		d.fwd = fwd
+	}
+	return d, nil
 }
 
 func (d *qBounceDelivery) AddRcpt(ctx context.Context, to string, _ smtp.RcptOptions) error {
@@ -317,6 +337,9 @@ func (d *qBounceDelivery) AddRcpt(ctx context.Context, to string, _ smtp.RcptOpt
 		return fmt.Errorf("bounce target: recipient refused")
 	}
 	d.r.Rcpts = append(d.r.Rcpts, to)
+	if d.fwd != nil {
+		return d.fwd.AddRcpt(ctx, to, smtp.RcptOptions{})
+	}
 	return nil
 }
 
@@ -332,6 +355,9 @@ func (d *qBounceDelivery) Body(ctx context.Context, h textproto.Header, b buffer
 	if d.b.failAt == "body" {
 		return fmt.Errorf("bounce target: body refused")
 	}
+	if d.fwd != nil {
+		return d.fwd.Body(ctx, h, b)
+	}
 	return nil
 }
 
@@ -343,11 +369,17 @@ func (d *qBounceDelivery) Commit(ctx context.Context) error {
 	if qSeq != nil {
 		d.r.CommitSeq = qSeq()
 	}
+	if d.fwd != nil {
+		return d.fwd.Commit(ctx)
+	}
 	return nil
 }
 
 func (d *qBounceDelivery) Abort(ctx context.Context) error {
 	d.r.Aborted = true
+	if d.fwd != nil {
+		return d.fwd.Abort(ctx)
+	}
 	return nil
 }
 
@@ -433,12 +465,15 @@ func qRun(sc qScenario, observe func(dir string, h *qHistory)) *qHistory {
 		var bounce module.DeliveryTarget
 		if sc.Bounce != "none" {
 			b := &qBounce{h: h}
-			if sc.Bounce != "ok" {
+			if sc.Bounce != "ok" && sc.Bounce != "requeue" {
 				b.failAt = sc.Bounce
 			}
 			bounce = b
 		}
 		q := qNewQueue(spool, &sc, tgt, bounce)
+		if b, ok := bounce.(*qBounce); ok && sc.Bounce == "requeue" {
+			b.q = q
+		}
 		ctx := context.Background()
 		for _, m := range sc.Msgs {
 			if m.AcceptAfterMin > 0 {
@@ -528,6 +563,9 @@ func qRun(sc qScenario, observe func(dir string, h *qHistory)) *qHistory {
 				h.Restarts++
 				h.mu.Unlock()
 				q = qNewQueue(spool, &sc, tgt, bounce)
+				if b, ok := bounce.(*qBounce); ok && sc.Bounce == "requeue" {
+					b.q = q
+				}
 				continue
 			}
 			if !qSpoolBusy(spool) {
